@@ -1,6 +1,21 @@
-(* C05 — container updates are collected once per target with exactly the fields set. *)
-From Coq Require Import String List Bool.
-From NRI Require Import Model.Types Model.Result Proofs.ResultProofs.
+(* C05 — container updates are collected once per target with exactly the fields set.
+   Only statements here; proofs are in Proofs/UpdatesProofs.v (and Proofs/ResultProofs.v,
+   Proofs/RefineLedger.v).
+
+   The theorems are about Model/Result.v ([update_one], [update_all], [run_request],
+   [response_updates]), the executable model of pkg/adaptation/result.go that the correspondence
+   check runs against the real code on every invocation.  The reference is Spec/Updates.v
+   ([spec_updates]: one entry per distinct target in order of first mention; the updated container's
+   entry last — absent when never mentioned, an empty placeholder when mentioned but unchanged,
+   otherwise the runtime's requested resources overlaid with the plugins' changes; an update flagged
+   as dropped by the abstract ledger of Spec/AbsLedger.v contributes nothing).
+   [wf_rp]: the annotation map of an adjustment has distinct keys (it is a Go map) — the only
+   hypothesis.  No well-formedness of the updates themselves is needed: an update naming one
+   hugepage size or one unified key twice conflicts with itself in the model exactly as in the
+   abstract ledger. *)
+From Coq Require Import String List Bool ZArith.
+From NRI Require Import Base.Strs Model.Types Model.Result Spec.Apply Spec.AbsLedger Spec.Updates
+  Proofs.ResultProofs Proofs.RefineLedger Proofs.UpdatesProofs Run.RunAdapt.
 Import ListNotations.
 
 (* an update that targets the container currently being created fails the request — wherever it
@@ -10,3 +25,145 @@ Theorem C05_self_update_rejected :
     s_create s = Some c -> u_id u = c_id c -> exists e, update_all (us1 ++ u :: us2) s = Err e.
 Proof. exact self_update_fails. Qed.
 Print Assumptions C05_self_update_rejected.
+
+(* THE property, for every request kind, every number of plugins, every set of targets (own
+   container, repeated targets), every subset of fields, every placement of ignore-failure, every
+   pre-populated update request: when the request succeeds the reference is defined and the model's
+   updates satisfy the very predicate that holds_C05 (Run/RunAdapt.v) evaluates on the
+   implementation's observation *)
+Theorem C05_updates_exact :
+  forall rq rps s,
+    Forall wf_rp rps -> snd (run_request rq rps) = Ok s ->
+    exists us,
+      spec_updates (created_of rq) (own_of rq) rps = Some us /\
+      updates_obs_eqb (match rq with RUpdate _ _ => true | _ => false end) us
+        (map (fun o => match o with Some a => Some (au_id a, au_res a) | None => None end) (response_updates rq s)) = true.
+Proof. exact updates_exact. Qed.
+Print Assumptions C05_updates_exact.
+
+(* sharper: the reference IS the model's output — same entries, same order, same values, not only
+   up to the map readings of updates_obs_eqb *)
+Theorem C05_updates_exact_eq :
+  forall rq rps s,
+    Forall wf_rp rps -> snd (run_request rq rps) = Ok s ->
+    spec_updates (req_created rq) (own_of rq) rps = Some (map out_of (response_updates rq s)).
+Proof. exact updates_exact_eq. Qed.
+Print Assumptions C05_updates_exact_eq.
+
+(* the whole run-time predicate, success and failure: an observation carrying the model's error
+   class and the model's updates satisfies holds_C05 *)
+Theorem C05_model_satisfies_predicate :
+  forall c,
+    Forall wf_rp (ac_resps c) ->
+    match snd (run_request (ac_req c) (ac_resps c)) with
+    | Ok s => ac_err c = 0 /\ ac_updates c = map out_of (response_updates (ac_req c) s)
+    | Err e => ac_err c = err_class e
+    end ->
+    holds_C05 c = true.
+Proof. exact model_satisfies_holds_C05. Qed.
+Print Assumptions C05_model_satisfies_predicate.
+
+(* flags alignment: [model_drops u s] is the model's own decision (updateResources refused a claim of
+   an update; with ignore-failure the error is swallowed).  It is the abstract ledger's verdict on the
+   update's claims ... *)
+Theorem C05_drop_is_ledger_verdict :
+  forall cr u s oa,
+    SInv cr s oa -> model_drops u s = negb (fst (abs_claims (g_claims (update_group u)) oa)).
+Proof. exact model_drops_abs. Qed.
+Print Assumptions C05_drop_is_ledger_verdict.
+
+(* ... and over a whole request the flagged updates of the reference are the updates of the history,
+   in order, each paired with the model's decision [run_drops] *)
+Theorem C05_flags_alignment :
+  forall rq rps s,
+    Forall wf_rp rps -> snd (run_request rq rps) = Ok s ->
+    exists oa fl,
+      abs_run (all_groups (req_created rq) rps) [] [] = Some (oa, fl) /\
+      flagged_updates (req_created rq) rps fl = combine (concat (map rp_updates rps)) (run_drops rps (init_state rq)) /\
+      length (run_drops rps (init_state rq)) = length (concat (map rp_updates rps)) /\
+      UInv (own_of rq) (flagged_updates (req_created rq) rps fl) s.
+Proof. exact flags_alignment. Qed.
+Print Assumptions C05_flags_alignment.
+
+(* exactly the fields set: a committed update leaves the resources it was staged on overlaid with its
+   own (scalars overwritten, hugepage limits appended = last wins, unified keys upserted) *)
+Theorem C05_merge_is_overlay :
+  forall id r base o r' o',
+    merge_resources id r base o = (Ok r', o') -> r' = apply_res base r /\ res_obs_eqb r' (apply_res base r) = true.
+Proof. exact merge_is_overlay. Qed.
+Print Assumptions C05_merge_is_overlay.
+
+(* copy-then-commit: an ignore-failure update that conflicts does not fail the request, and leaves
+   the resources of every accumulated entry, the update-request view, the container view and the
+   reply as they were; a target mentioned for the first time gets an entry without values *)
+Theorem C05_ignored_conflict_dropped :
+  forall u s,
+    u_ignore u = true -> model_drops u s = true ->
+    (forall c, s_create s = Some c -> c_id c <> u_id u) ->
+    exists s',
+      update_one u s = Ok s' /\
+      s_update s' = s_update s /\ s_create s' = s_create s /\ s_adjust s' = s_adjust s /\
+      forall t, option_map au_res (find_acc t (s_updates s')) =
+                if String.eqb t (u_id u)
+                then Some (match find_acc t (s_updates s) with Some a => au_res a | None => res_empty end)
+                else option_map au_res (find_acc t (s_updates s)).
+Proof. exact ignored_conflict_dropped. Qed.
+Print Assumptions C05_ignored_conflict_dropped.
+
+(* one entry per distinct target in order of first mention (dropped and value-less updates count as
+   mentions); for an update request the updated container's entry comes last, nil when never mentioned *)
+Theorem C05_one_entry_per_target :
+  forall rq rps s,
+    Forall wf_rp rps -> snd (run_request rq rps) = Ok s ->
+    let mentioned := dedup (map u_id (concat (map rp_updates rps))) [] in
+    NoDup mentioned /\
+    map au_id (s_updates s) = mentioned /\
+    map (option_map au_id) (response_updates rq s) =
+    match rq with
+    | RUpdate id _ => map Some (filter (fun t => negb (String.eqb t id)) mentioned) ++ [if smem id mentioned then Some id else None]
+    | _ => map Some mentioned
+    end.
+Proof. exact one_entry_per_target. Qed.
+Print Assumptions C05_one_entry_per_target.
+
+(* ---------- non-vacuity ---------- *)
+Open Scope string_scope.
+Open Scope Z_scope.
+Definition ex_R sc hp un : resources := {| r_scal := sc; r_hp := hp; r_uni := un |}.
+Definition ex_U id r ig : update := {| u_id := id; u_res := r; u_ignore := ig |}.
+Definition ex_RP us : response := {| rp_adjust := None; rp_updates := us |}.
+(* the runtime updates c0 (memory limit 100, CPU shares 5, one hugepage limit, one unified key).
+   Plugin A: CPU shares of o1; memory limit of c0 itself.
+   Plugin B: ignore-failure update of o1 {memory limit, CPU shares} — conflicts with A, dropped; hugepages of o2.
+   Plugin C: c0 again (hugepage size already requested, unified keys); o1 again (unified); o3 and o2 without values. *)
+Definition ex_req : request := RUpdate "c0" (ex_R [(MemLimit, VZ 100); (CpuShares, VZ 5)] [("2M", 1)] [("k", "v")]).
+Definition ex_rps : list response :=
+  [ex_RP [ex_U "o1" (Some (ex_R [(CpuShares, VZ 7)] [] [])) false; ex_U "c0" (Some (ex_R [(MemLimit, VZ 200)] [] [])) false];
+   ex_RP [ex_U "o1" (Some (ex_R [(MemLimit, VZ 1); (CpuShares, VZ 9)] [] [])) true; ex_U "o2" (Some (ex_R [] [("1G", 3)] [])) false];
+   ex_RP [ex_U "c0" (Some (ex_R [] [("2M", 9)] [("k", "w"); ("z", "y")])) false; ex_U "o1" (Some (ex_R [] [] [("a", "b")])) false;
+          ex_U "o3" None true; ex_U "o2" None false]].
+
+Example C05_example_wf : Forall wf_rp ex_rps.
+Proof. repeat constructor. Qed.
+
+(* the request succeeds, exactly one update (B's first) is dropped, and the runtime receives
+   o1, o2, o3 in order of first mention and c0 last with the request overlaid *)
+Example C05_example :
+  exists s,
+    snd (run_request ex_req ex_rps) = Ok s /\
+    run_drops ex_rps (init_state ex_req) = [false; false; true; false; false; false; false; false] /\
+    map out_of (response_updates ex_req s) =
+      [Some ("o1", ex_R [(CpuShares, VZ 7)] [] [("a", "b")]);
+       Some ("o2", ex_R [] [("1G", 3)] []);
+       Some ("o3", ex_R [] [] []);
+       Some ("c0", ex_R [(MemLimit, VZ 200); (CpuShares, VZ 5)] [("2M", 1); ("2M", 9)] [("k", "w"); ("z", "y")])] /\
+    spec_updates (created_of ex_req) (own_of ex_req) ex_rps = Some (map out_of (response_updates ex_req s)).
+Proof. eexists. split; [vm_compute; reflexivity|]. vm_compute. repeat split. Qed.
+
+(* the dropped update alone: B's update of o1 is refused (A holds o1's CPU shares), swallowed, and
+   changes neither o1's entry nor the view *)
+Example C05_example_dropped :
+  exists s1,
+    snd (run_request ex_req (firstn 1 ex_rps)) = Ok s1 /\
+    model_drops (ex_U "o1" (Some (ex_R [(MemLimit, VZ 1); (CpuShares, VZ 9)] [] [])) true) s1 = true.
+Proof. eexists. split; vm_compute; reflexivity. Qed.
